@@ -281,6 +281,22 @@ def run_case(concepts, case, spec):
         call(lat.join, arg)
         arg = ms if rng.random() < .5 else iter(list(ms))
         call(lat.meet, arg)
+    # other look-ups on the same lattice in between (shared memo tables), one mutable argument list
+    props = list(ctx.properties)
+    objs = list(ctx.objects)
+    arg = []
+    for _ in range(12 if thorough else 8):
+        call(lat, rng.sample(props, rng.randint(0, min(len(props), 3))))
+        call(lat.__getitem__, tuple(rng.sample(objs, rng.randint(1, min(len(objs), 3)))))
+        a, b = members[rng.randrange(n)], members[rng.randrange(n)]
+        call(lambda: a | b)
+        call(lambda: a & b)
+        arg.append(rng.choice(members))
+        call(lat.join, arg)
+        call(lat.meet, arg)
+        if len(arg) > 2:
+            arg.pop(0)
+    COL.count('interleaved_lookups')
     call(lat.join, [])
     call(lat.meet, ())
     # concepts that outlive every other reference to their lattice and context
